@@ -5,9 +5,10 @@ package main
 import (
 	"context"
 	"fmt"
-	"os"
 	"math/rand"
+	"os"
 	"path/filepath"
+	"runtime"
 	"sort"
 	"sync"
 	"sync/atomic"
@@ -128,16 +129,13 @@ func TestVerifC20(t *testing.T) {
 			})
 		}
 	}
-	// cmdGline takes the session lock, then the config lock; the HTML status page and the expiry sweep
-	// take them in the opposite order. That can deadlock (not a data race, and no listed property), so
-	// rounds with GLINE (even seeds) leave those two out and the other rounds leave GLINE out.
-	withGline := seed%2 == 0
+	// GLINE runs together with the HTML status page and the expiry sweep: the lock-order inversion
+	// between them (a deadlock, found by this workload) is repaired in /repo; should the node block
+	// again, the watchdog below dumps the goroutines and the run is inconclusive.
+	withGline := true
 	pages := []string{"/status", "/status/getmessage", "/status/sessions", "/status/irclog", "/status/state", "/config", "/metrics", "/leader", "/irclog?sessionid=" + sessions[0].Id}
 	for pi, page := range pages {
 		page := page
-		if withGline && page == "/status" {
-			continue
-		}
 		run(fmt.Sprintf("page-%d", pi), func(rng *rand.Rand) {
 			ov.do("page:"+page[:min(len(page), 18)], func() { c.private("GET", page, n.password, nil, nil) })
 			time.Sleep(time.Duration(rng.Intn(3)) * time.Millisecond)
@@ -172,7 +170,9 @@ func TestVerifC20(t *testing.T) {
 		if s != nil {
 			k := atomic.AddInt64(&churn, 1)
 			// behind a trusted bridge every churn session has its own address (so that a GLINE hits only it)
-			ov.do("post", func() { c.postFrom(s, fmt.Sprintf("NICK churn%d", k), nextCm(), fmt.Sprintf("10.7.%d.%d", (k/250)%250, k%250)) })
+			ov.do("post", func() {
+				c.postFrom(s, fmt.Sprintf("NICK churn%d", k), nextCm(), fmt.Sprintf("10.7.%d.%d", (k/250)%250, k%250))
+			})
 			ov.do("post", func() { c.postFrom(s, "USER u 0 * :r", nextCm(), fmt.Sprintf("10.7.%d.%d", (k/250)%250, k%250)) })
 			if k%2 == 0 {
 				ov.do("delete-session", func() { c.deleteSession(s, []byte(`{"Quitmessage":"bye"}`)) })
@@ -209,6 +209,7 @@ func TestVerifC20(t *testing.T) {
 			doCtx(ctx, c, "POST", "/robustirc/v1/"+id+"/message", map[string]string{"X-Session-Auth": auth}, `{"Data":"PING x","ClientMessageId":1}`)
 		})
 	})
+	reportedOnce := false
 	report := func() {
 		ov.mu.Lock()
 		defer ov.mu.Unlock()
@@ -240,9 +241,11 @@ func TestVerifC20(t *testing.T) {
 				missing = append(missing, r)
 			}
 		}
-		if len(missing) > 0 {
+		// the second report of a restore round covers only the moments after the restore
+		if len(missing) > 0 && !reportedOnce {
 			rep.Extra("required_overlaps_missing", missing)
 		}
+		reportedOnce = true
 		rep.Sample(map[string]interface{}{"seed": seed, "duration_ms": duration.Milliseconds(), "operations": total, "distinct_overlapping_pairs": len(keys), "restore_during_load": seed%2 == 0})
 		ov.pairs, ov.counts = map[string]int{}, map[string]int{}
 	}
@@ -281,6 +284,13 @@ func TestVerifC20(t *testing.T) {
 	case <-finished:
 	case <-time.After(duration + 60*time.Second):
 		report()
+		buf := make([]byte, 8<<20)
+		buf = buf[:runtime.Stack(buf, true)]
+		dumpDir := os.Getenv("VERIF_DUMP_DIR")
+		if dumpDir == "" {
+			dumpDir = verifrep.Dir()
+		}
+		os.WriteFile(filepath.Join(dumpDir, "c20-blocked-goroutines.txt"), buf, 0644)
 		rep.Inconclusive("C20", "the workload did not come to an end 60s after its deadline (operations blocked); observations so far are reported")
 		rep.Close()
 		os.Exit(0)
